@@ -182,7 +182,9 @@ func runC15(r *core.Run) {
 		bad("is-expired", "Lease2.IsExpired", "a lease ending in a day is reported expired")
 	}
 	// Lease (ms)
-	for _, ms := range []uint64{0, 1, 999, 1000, 1<<31*1000 - 1, 1 << 31 * 1000, 1<<32*1000 - 1, 1 << 32 * 1000, 1 << 53, 253402300799999, 1<<63 - 1} {
+	leaseMs := []uint64{0, 1, 999, 1000, 1<<31*1000 - 1, 1 << 31 * 1000, 1<<32*1000 - 1, 1 << 32 * 1000, 1 << 53, 253402300799999, 1<<63 - 1,
+		uint64(now-86400) * 1000, uint64(now+86400) * 1000, (1<<32 + uint64(now) - 86400) * 1000, (1<<33 + uint64(now) - 100) * 1000, (1<<32 + 5) * 1000}
+	for _, ms := range leaseMs {
 		r.Evaluations.Add(1)
 		l := refmodel.Lease{Hash: [32]byte{9}, TunnelID: 3, EndMs: ms}
 		v, _, err := lease.ReadLease(l.Bytes())
@@ -193,6 +195,12 @@ func runC15(r *core.Run) {
 		d := v.Date()
 		if v.Time().UnixMilli() != int64(ms) || !bytes.Equal(d[:], refmodel.BE(ms, 8)) || d.Time().UnixMilli() != int64(ms) {
 			bad("lease-end", "Lease.Time/Date", fmt.Sprintf("end=%d ms -> Time %d, Date %x", ms, v.Time().UnixMilli(), d[:]))
+		}
+		// expiry of the 8-byte lease is decided on its full 64-bit millisecond date
+		if far := ms > uint64(now+86400)*1000; far && v.IsExpired() {
+			bad("is-expired", "Lease.IsExpired", fmt.Sprintf("a lease ending at %d ms (after now + 1 day) is reported expired", ms))
+		} else if ms < uint64(now-86400)*1000 && !v.IsExpired() {
+			bad("is-expired", "Lease.IsExpired", fmt.Sprintf("a lease that ended at %d ms (before now - 1 day) is not reported expired", ms))
 		}
 		c, err := lease.NewLease(data.Hash{9}, 3, time.UnixMilli(int64(ms)))
 		if err != nil || !bytes.Equal(c.Bytes(), l.Bytes()) {
